@@ -112,7 +112,25 @@ def oldNewH : Handler := fun j => do
       | .error _ => Json.null
     pure (Json.mkObj [("ok", cfgToJson t), ("rows", Json.arr rows.toArray), ("combined", combined)])
 
+/-- `{"op":"c10.oldnewfull","vendor":…,"splitter":…,"gens":[…],"no_acl":bool,"exclusive":bool,"filter":null|[raw rules],
+"old":tree}` → `.old` and `.new` of `_old_new_per_device` for a device with a configuration and a filter ACL -/
+def oldNewFullH : Handler := fun j => do
+  let v ← vendorOfJson (← arg j "vendor")
+  let sp ← splitterOfJson (← arg j "splitter")
+  let gens ← (← (← arg j "gens").getArr?).toList.mapM genOfJson
+  let noAcl ← (← arg j "no_acl").getBool?
+  let excl ← (← arg j "exclusive").getBool?
+  let fj ← arg j "filter"
+  let filter ← if fj.isNull then pure none else do
+    let rs ← (← fj.getArr?).toList.mapM rawOfJson
+    pure (some rs)
+  let old ← cfgOfJson (← arg j "old")
+  match oldNewFull v sp gens noAcl excl filter old with
+  | .error e => pure (errToJson e)
+  | .ok r => pure (Json.mkObj [("old", cfgToJson r.old), ("new", cfgToJson r.new)])
+
 def handlers : List (String × Handler) :=
-  [("c10.splitstrip", splitStripH), ("c10.rows", rowsH), ("c10.split", splitH), ("c10.oldnew", oldNewH)]
+  [("c10.splitstrip", splitStripH), ("c10.rows", rowsH), ("c10.split", splitH), ("c10.oldnew", oldNewH),
+   ("c10.oldnewfull", oldNewFullH)]
 
 end Annet.Glue.C10
